@@ -268,7 +268,11 @@ fn gen_base(t: &mut Tape, c64: bool) -> u64 {
 /// main program or by the objects it names in DT_NEEDED, and has R_386_RELATIVE words.
 fn gen_link(t: &mut Tape) -> Case {
     let nlibs = 1 + t.weighted(&[60, 40]);
-    let chain = nlibs == 2 && t.chance(1, 2); // main -> a -> b, else main -> a, b
+    // topology with two libraries: main -> a -> b (chain), main -> a, b (flat), or the diamond
+    // main -> a, b with a -> b as well (b is needed twice and must be loaded once)
+    let topo = if nlibs == 2 { t.below(3) } else { 0 };
+    let chain = topo == 1;
+    let diamond = topo == 2;
     let files: Vec<String> = ["main", "liba.so", "libb.so"][..=nlibs].iter().map(|s| s.to_string()).collect();
     // EM_386 (R_386_* relocations) or MIPS o32 (GOT relocation + R_MIPS_REL32)
     let arch = [(EM_386, false), (EM_386, false), (EM_MIPS, true), (EM_MIPS, false)][t.below(4)];
@@ -319,6 +323,7 @@ fn gen_link(t: &mut Tape) -> Case {
             (0, 2, true) => vec![files[1].clone()],
             (0, 2, false) => vec![files[1].clone(), files[2].clone()],
             (1, 2, true) => vec![files[2].clone()],
+            (1, 2, false) if diamond => vec![files[2].clone()],
             _ => vec![],
         };
     }
@@ -329,6 +334,7 @@ fn gen_link(t: &mut Tape) -> Case {
         match (k, nlibs, chain) {
             (0, _, _) => visible.extend(1..=nlibs),
             (1, 2, true) => visible.push(2),
+            (1, 2, false) if diamond => visible.push(2),
             _ => {}
         }
         visible.sort();
